@@ -144,7 +144,7 @@ func c04UsesValue(c ssa.CallInstruction, pred func(ssa.Value) bool) bool {
 func c04(r *core.Run) {
 	defer c04Extra(r)
 	p := r.P
-	r.Explanation = "Decides on every path: (JWT) the closure that calls Parser.ParseToken reaches next.ServeHTTP only with err == nil ∧ tok.Valid ∧ claims type-ok, every failing arm passes a function that writes 401 on all its paths, every non-registered claim key (the ignored set may be a switch, a helper or a constant package-level table, which is evaluated) reaches context.WithValue(ctx, k, v) with a loop-carried ctx that is the context of the request given to next; ParseToken, evaluated path by path for an empty and a non-empty prevSecret with every attempt's outcome open (control flow as written: nested ifs, early returns or a loop over the ordered pair; locals in variables, structs or arrays), parses only with secret or a non-empty prevSecret, returns a failure only after every available secret was tried, returns a nil error only with the token of an attempt that succeeded; the key function returns the secret it was given; Authorize is given (r, secret, opts.PrevSecret) and engine.appendAuthHandler appends it whenever jwt is enabled. (Signature) for each of DELETE/GET/POST/PUT (method test as a switch, comparisons, a helper or a lookup in a constant package-level table) the gate closure uses next only after ParseContentSecurity err == nil ∧ VerifySignature == CodeSignaturePass (the failure callbacks excepted), the default callback calls next only when !strict and otherwise writes 403 and is installed when no callback is given; ParseContentSecurity succeeds only with a configured decryptor and successful decryption/decoding and takes key and timestamp from the decrypted secret; the MAC input depends on header timestamp, r.Method, path, query and body hash, is keyed with the header key and compared with the header signature; the path/query that enter the MAC are those of r.URL; the timestamp window is two-sided and symmetric (normal form); HmacBase64/Hmac key and feed the MAC with their arguments; engine.signatureVerifier lets a route through unsigned only when signatures are off or (no keys ∧ !Strict). (RPC) Authenticate reaches validate only with metadata present and non-empty app/token lists and values, passes (apps[0], tokens[0]) in that order, all other exits are Unauthenticated; validate returns nil only under (store error ∧ !strict) or token == expected, looks the app up under (a.key, app); both interceptors call the handler only after Authenticate returned nil with the call's context; setupInterceptors installs both when Auth is set with StrictControl as strictness."
+	r.Explanation = "Decides on every path: (JWT) the gate that calls Parser.ParseToken (a closure of the middleware, or the ServeHTTP method of a handler object whose unexported fields are resolved to what the middleware stores into them) reaches next.ServeHTTP only with err == nil ∧ tok.Valid ∧ claims type-ok, every failing arm passes a function that writes 401 on all its paths, every non-registered claim key (the ignored set may be a switch, a helper or a constant package-level table, which is evaluated) reaches context.WithValue(ctx, k, v) with a loop-carried ctx that is the context of the request given to next; ParseToken, evaluated path by path for an empty and a non-empty prevSecret with every attempt's outcome open (control flow as written: nested ifs, early returns or a loop over the ordered pair; locals in variables, structs or arrays), parses only with secret or a non-empty prevSecret, returns a failure only after every available secret was tried, returns a nil error only with the token of an attempt that succeeded; the key function returns the secret it was given; Authorize is given (r, secret, opts.PrevSecret) and engine.appendAuthHandler appends it whenever jwt is enabled. (Signature) for each of DELETE/GET/POST/PUT (method test as a switch, comparisons, a helper or a lookup in a constant package-level table) the gate closure uses next only after ParseContentSecurity err == nil ∧ VerifySignature == CodeSignaturePass (the failure callbacks excepted), the default callback calls next only when !strict and otherwise writes 403 and is installed when no callback is given; ParseContentSecurity succeeds only with a configured decryptor and successful decryption/decoding and takes key and timestamp from the decrypted secret; the MAC input depends on header timestamp, r.Method, path, query and body hash, is keyed with the header key and compared with the header signature; the path/query that enter the MAC are those of r.URL; the timestamp window is two-sided and symmetric (normal form); HmacBase64/Hmac key and feed the MAC with their arguments; engine.signatureVerifier lets a route through unsigned only when signatures are off or (no keys ∧ !Strict). (RPC) Authenticate reaches validate only with metadata present and non-empty app/token lists and values, passes (apps[0], tokens[0]) in that order, all other exits are Unauthenticated; validate returns nil only under (store error ∧ !strict) or token == expected, looks the app up under (a.key, app); both interceptors call the handler only after Authenticate returned nil with the call's context; setupInterceptors installs both when Auth is set with StrictControl as strictness."
 	r.NotDecided = "cryptographic validity (golang-jwt, crypto/hmac, the RSA decryptor are trusted); effects of the adaptive secret ordering over histories of requests; time-claim validation inside golang-jwt; the cache's 5-minute staleness."
 
 	c04jwt(r, p)
@@ -156,8 +156,9 @@ func c04(r *core.Run) {
 
 func c04jwt(r *core.Run, p *core.Prog) {
 	isParseTok := core.CallMethod("token.Parser", "ParseToken")
-	isHandlerT := b2TypeIs("net/http.Handler")
-	isNextVal := b2FreeVarOfType(isHandlerT)
+	// the protected handler: a captured http.Handler (the gate is a closure) or a field of the gate object
+	// that holds the middleware's http.Handler parameter (the gate is a handler object, c04_gate.go)
+	isNextVal := c04WrappedHandler(p)
 	isNext := b2Invoke(isNextVal, "ServeHTTP")
 	// role: the functions of the package that call ParseToken (the gate closure itself, or a verifying helper of it)
 	var parsers []*ssa.Function
@@ -189,12 +190,26 @@ func c04jwt(r *core.Run, p *core.Prog) {
 			unauthFns[f] = true
 		}
 	}
-	isUnauth := func(in ssa.Instruction) bool {
+	isUnauth0 := func(in ssa.Instruction) bool {
 		if c04IsWriteHeader(401)(in) {
 			return true
 		}
 		c := core.AsCall(in)
 		return c != nil && c.Common().StaticCallee() != nil && unauthFns[c.Common().StaticCallee()]
+	}
+	// … or pass a 401 writer on every path (a thin wrapper such as a reject method of the gate object)
+	unauthVia := map[*ssa.Function]bool{}
+	for _, f := range b2PkgFuncs(p, c04HandlerPkg) {
+		if !unauthFns[f] && f.Parent() == nil && len(core.Instrs(f, isUnauth0)) > 0 && core.MustPass(core.Entry(f), isUnauth0, core.IsReturn) == nil {
+			unauthVia[f] = true
+		}
+	}
+	isUnauth := func(in ssa.Instruction) bool {
+		if isUnauth0(in) {
+			return true
+		}
+		c := core.AsCall(in)
+		return c != nil && c.Common().StaticCallee() != nil && unauthVia[c.Common().StaticCallee()]
 	}
 	isTok := func(v ssa.Value) bool { return core.IsResult(v, 0, isParseTok) }
 	type namedAtom struct {
@@ -224,7 +239,7 @@ func c04jwt(r *core.Run, p *core.Prog) {
 		}), "the claims are not MapClaims"},
 	}
 
-	r.Check("D1/K2/jwt-gate", "next.ServeHTTP is reachable only with ParseToken err == nil ∧ tok.Valid ∧ claims.(MapClaims) ok — tested in the gate closure itself, or in a verifying helper that returns a nil error only then and whose error the gate tests; every failing arm passes a 401 writer before returning", func(o *core.O) {
+	r.Check("D1/K2/jwt-gate", "next.ServeHTTP is reachable only with ParseToken err == nil ∧ tok.Valid ∧ claims.(MapClaims) ok — tested in the gate closure itself, or in a verifying helper that returns a nil error only then and whose error the gate tests; every failing arm passes a 401 writer (or a wrapper that passes one on all its paths) before returning; next is the handler the gate closure captured or the field of the gate object that holds the middleware's handler parameter", func(o *core.O) {
 		if !o.Need(len(gates) > 0, "a function of api/handler that runs next.ServeHTTP and verifies the token with (*token.Parser).ParseToken") {
 			return
 		}
@@ -415,7 +430,7 @@ func c04jwt(r *core.Run, p *core.Prog) {
 				if !carries(wc.Call.Args[1]) {
 					o.Fail(p.InstrPos(in), "the request handed to next does not carry the claims context")
 				}
-				if len(g.Params) == 2 && !b2Param(g, 1)(wc.Call.Args[0]) {
+				if ri := c04ParamOfType(g, "*net/http.Request"); ri >= 0 && !b2Param(g, ri)(wc.Call.Args[0]) {
 					o.Fail(p.InstrPos(in), "the request handed to next is not the incoming request")
 				}
 			}
@@ -446,7 +461,7 @@ func c04jwt(r *core.Run, p *core.Prog) {
 				if !b2AllOrigins(p, a[1], isGateReq) {
 					o.Fail(p.InstrPos(c), "ParseToken is not given the incoming request")
 				}
-				if !b2AllOrigins(p, a[2], func(v ssa.Value) bool { return v == ssa.Value(az.Params[0]) || c04Origin(v) == ssa.Value(az.Params[0]) }) {
+				if !c04AllOrigins(p, a[2], func(v ssa.Value) bool { return v == ssa.Value(az.Params[0]) || c04Origin(v) == ssa.Value(az.Params[0]) }) {
 					o.Fail(p.InstrPos(c), "the current secret passed to ParseToken is %s, not Authorize's secret parameter", core.Describe(a[2]))
 				}
 				if !b2AllOrigins(p, a[3], b2FieldLoadS("AuthorizeOptions.PrevSecret")) {
